@@ -252,9 +252,52 @@ def judge_logs():
     if not any('\x1b[' in x for x in col):
         return ('harness:colour-not-forced', {})
     stripped = [ANSI.sub('', x) for x in col]
-    if [re.sub(r' +', ' ', x) for x in stripped] != [re.sub(r' +', ' ', x) for x in plain]:
+    if stripped != plain:
+        if [re.sub(r' +', ' ', x) for x in stripped] == [re.sub(r' +', ' ', x) for x in plain]:
+            return ('colour-changes-text:formatted_logs:column-width', {'coloured': stripped, 'plain': plain})
         return ('colour-changes-text:formatted_logs', {'coloured': stripped, 'plain': plain})
     return None
+
+
+def judge_colour_bodies():
+    """bodies made of bytes of the dump (thread names) that contain a carriage return, begin / end with a blank or a newline:
+    the coloured line without its escape sequences is the plain line."""
+    bad = []
+    for name in (b'a\rb', b'a\r\nb', b'x\n', b'\ny', b' lead', b'trail ', b'tab\t', b'plain'):
+        blob = B.v2(MAPS[1], 0, [R('TRACE_STRING_THREADNAME', 0, tid=1, ts=5, data=name.ljust(32, b'\0'))])
+        try:
+            plain = lines(blob, 'formatted_traces', [True] * 6, False)
+            col = [ANSI.sub('', x) for x in lines(blob, 'formatted_traces', [True] * 6, True)]
+        except Exception as ex:
+            return [('formatting-raised:' + type(ex).__name__, {'api': 'formatted_traces', 'error': repr(ex)[:200]})]
+        if plain != col:
+            kind = 'carriage-return' if b'\r' in name else 'edge-whitespace'
+            bad.append(('colour-changes-text:formatted_traces:body-with-' + kind, {'name': repr(name), 'plain': plain, 'coloured': col}))
+    return bad
+
+
+def judge_superseded_sampler():
+    """a sampler window (PERF_Event START..END by thread 2) holds a thread-data record that declares tid 3 -> pid 99; before the
+    window ends another record re-declares tid 3 (NEWTHREAD 3 -> 10, or terminate-pid by 3 itself): after the END the newest
+    declaration still holds."""
+    bad = []
+    for redecl, pid in ((R('TRACE_DATA_NEWTHREAD', 0, (3, 10, 0, 0), tid=1, ts=3), 10), (R('TRACE_DATA_THREAD_TERMINATE_PID', 0, (88, 1, 0, 0), tid=3, ts=3), 88),
+                        (R('PERF_THD_Data', 0, (77, 3, 0, 0), tid=1, ts=3), 77)):
+        for flags in (1, 9, 8):
+            recs = [R('PERF_Event', 1, (flags, 5, 0, 0), tid=2, ts=1), R('PERF_THD_Data', 0, (99, 3, 0, 0), tid=2, ts=2), redecl,
+                    R('BSC_getpid', 1, tid=3, ts=4), R('BSC_getpid', 2, (0, 5, 0, 0), tid=3, ts=5),
+                    R('PERF_Event', 2, (flags, 0, 0, 0), tid=2, ts=6),
+                    R('BSC_getpid', 1, tid=3, ts=7), R('BSC_getpid', 2, (0, 5, 0, 0), tid=3, ts=8)]
+            blob = B.v2(MAPS[2], 0, recs)
+            try:
+                got = [x for x in lines(blob, 'formatted_traces', [False, False, False, False, True, False], False) if 'getpid' in x]
+            except Exception as ex:
+                return [('formatting-raised:' + type(ex).__name__, {'error': repr(ex)[:200]})]
+            exp = f"{ {10: 'A', 20: 'B'}.get(pid, '') }({pid})"
+            if len(got) != 2 or not all(g.startswith(f'{exp:<34}') for g in got):
+                bad.append(('process-column-not-the-declared-process:declaration-inside-a-sampler-window-re-applied-at-its-END',
+                            {'lines': got, 'expected_process': exp, 'sampler_flags': flags}))
+    return bad
 
 
 class C14(Check):
@@ -384,6 +427,12 @@ class C14(Check):
             acc.case(nontrivial=True, transitions=2)
             if bad:
                 acc.violation(bad[0], {'kind': 'logs'}, bad[1])
+            for sig, detail in judge_colour_bodies():
+                acc.violation(sig, {'kind': 'colour-bodies'}, detail)
+            acc.case(nontrivial=True, transitions=16, state=h64('colour-bodies'))
+            for sig, detail in judge_superseded_sampler():
+                acc.violation(sig, {'kind': 'superseded-sampler'}, detail)
+            acc.case(nontrivial=True, transitions=9, state=h64('superseded-sampler'))
 
     def replay(self, case):
         k = case['kind']
@@ -407,6 +456,10 @@ class C14(Check):
                 bad = (bad[0] + ':after-a-failed-dump', bad[1])
         elif k == 'callstacks':
             bad, _ = judge_compose(callstack_dump(), 'formatted_callstacks')
+        elif k == 'colour-bodies':
+            return judge_colour_bodies()
+        elif k == 'superseded-sampler':
+            return judge_superseded_sampler()
         else:
             bad = judge_logs()
         return [bad] if bad else []
